@@ -18,6 +18,17 @@ float grids).
      (bbox, polygons, multi coverages, other SRS) are seeded with random interruptions; one event per spec
      action is recorded by interposition and the batch is validated by TLC against spec/trace/Trace_Seeder.tla
      with all invariants evaluated on the recorded states.
+
+Two genuine violations of CompleteRunExact are known on the pinned tree; both are detected on the real code first
+(property statement on observed hand-overs), agree with the model (TLC lists the same missed tiles) and are
+reported with their own signature (classify_miss), every other miss is {'cause': 'other'}:
+  coarse-level-inset                     get_affected_level_tiles drops 1/10 pixel of the QUERIED level at every step
+                                         of the descent: an overlap thinner than that in a coarse level loses all its
+                                         descendants (many pixels / whole tile rows of the seeded level)
+  coarser-level-matrix-does-not-cover    _calc_grids floors a partial pixel: a coarse level's tile matrix can end
+                                         before the grid bbox, tiles of finer levels beyond it have no ancestor
+The harness measures which bbox the walker under test hands to the grid per node (detect_policy) so that the model
+stays the model of the code with and without the candidate repair of the first one.
 """
 import contextlib
 import io
